@@ -77,6 +77,13 @@ CHECKS = {
              "parameter, none for surplus arguments) and a transcription Impl of SignatureAtPos; MC_Sig checks Impl in Allowed on every (tree, location) of the universe and prints the "
              "cases; the harness renders them in 4 layouts and TraceSig compares the real answers with Allowed.",
         ref="DESIGN.md 5/C20", technique="TLC exhaustive model checking of Signature.tla (MC_Sig) + replay of TLC-generated cases + TLC trace validation (TraceSig)"),
+    "C05": dict(
+        text="Concurrent.tla (PlusCal): N workers x queries over shared caller-owned nodes with ownership; TLC explores all interleavings (NoSharedWrite, RaceFree, ResultEqualsSequential) "
+             "and rejects the sensitivity configuration with a shared write. Binding: (a) the harness built with -race runs 16-48 unsynchronised goroutines with the mixed workload on one "
+             "shared PathContext; race reports become Race events that no specification action allows; (b) every concurrent result digest is validated against the sequential memo "
+             "(Session!Det); (c) all schedules of Sched.tla (interleavings of the first K gate steps of two queries) are forced on the real code with blocking gates inside "
+             "MergeBlockBodySchemas, with fingerprints of the shared context while a query is parked.",
+        ref="DESIGN.md 5/C05", technique="PlusCal/TLA+ interleaving model (Concurrent.tla) + TLC-generated schedules forced via gates + race detector events + TLC trace validation (memo rule)"),
 }
 
 NOT_YET = {
